@@ -460,3 +460,33 @@ fn test_wright_omega() {
         assert!((err / z) < 1e-9);
     }
 }
+
+// read-only verification accessors
+#[cfg(feature = "verif")]
+impl<T: FloatT> ExponentialCone<T> {
+    /// returns copies of (H_dual, Hs, grad, z); matrices as packed triu [T;6]
+    pub fn verif_state(&self) -> ([T; 6], [T; 6], [T; 3], [T; 3]) {
+        (self.H_dual.data, self.Hs.data, self.grad, self.z)
+    }
+    pub fn verif_is_primal_feasible(&self, s: &[T]) -> bool {
+        self.is_primal_feasible(s)
+    }
+    pub fn verif_is_dual_feasible(&self, z: &[T]) -> bool {
+        self.is_dual_feasible(z)
+    }
+    pub fn verif_barrier_primal(&mut self, s: &[T]) -> T {
+        self.barrier_primal(s)
+    }
+    pub fn verif_barrier_dual(&mut self, z: &[T]) -> T {
+        self.barrier_dual(z)
+    }
+    pub fn verif_higher_correction(&mut self, η: &mut [T], ds: &[T], v: &[T]) {
+        self.higher_correction(η, ds, v)
+    }
+    pub fn verif_update_dual_grad_H(&mut self, z: &[T]) {
+        self.update_dual_grad_H(z)
+    }
+    pub fn verif_gradient_primal(&self, s: &[T]) -> [T; 3] {
+        self.gradient_primal(s)
+    }
+}
